@@ -444,6 +444,18 @@ Proof.
   unfold Zlen. induction l as [|a t IH]; cbn; [lia|]. destruct (f a); cbn [length]; lia.
 Qed.
 
+(* The tree under test evaluates the cap on pending retirements on EVERY path of _handle_new_connection_id_frame
+   (probed: tools/gen/c07_consts.py).  On a tree that evaluates it only on some paths (e.g. only when the frame moved
+   Retire Prior To forward, so that a burst of late arrivals below it is never capped) this is false, [reflexivity]
+   fails, and nothing below -- buffer_bounded in particular -- checks any more. *)
+Lemma retire_cap_on_every_path : NCID_RETIRE_CAP_ONLY_WHEN_RAISED = false.
+Proof. reflexivity. Qed.
+
+Lemma over_retire_cap_false raised pend : over_retire_cap raised pend = false -> Zlen pend <= retire_cap.
+Proof.
+  unfold over_retire_cap. rewrite retire_cap_on_every_path. cbn [negb orb andb]. intros H. lia.
+Qed.
+
 Lemma handle_new_cid_inv c seq rpt r c' : CInv c -> handle_new_cid c seq rpt = (r, c') -> CInv c'.
 Proof.
   intros I. unfold handle_new_cid.
@@ -451,7 +463,8 @@ Proof.
   match goal with |- context[match ?x with Some _ => _ | None => _ end] => destruct x as [[active' avail3]|] end;
     [|destruct NCID_EMPTY_CLOSES; intros H; inversion H; subst; exact I].
   destruct (1 + Zlen avail3 >? LOCAL_ACTIVE_CID_LIMIT) eqn:E1; [intros H; inversion H; subst; exact I|].
-  match goal with |- context[if (Zlen ?p >? ?q) then _ else _] => set (pend := p); destruct (Zlen pend >? q) eqn:E2 end; [intros H; inversion H; subst; exact I|].
+  match goal with |- context[if over_retire_cap ?g ?p then _ else _] => set (pend := p); destruct (over_retire_cap g pend) eqn:E2 end; [intros H; inversion H; subst; exact I|].
+  apply over_retire_cap_false in E2. unfold retire_cap in E2.
   intros H; inversion H; subst; clear H. destruct I.
   constructor; cbn [c_msd c_streams c_data c_bidi c_uni c_crypto c_chal c_lchal c_retire c_cid_avail c_gone c_tls c_paths set_cids]; try assumption; lia.
 Qed.
